@@ -56,10 +56,14 @@ Fixpoint pv_of_sto (s : sto) : pv :=
   | SV (RInt z) => PInt z | SV (RFloat f) => PFloat f | SNoValue => PNone
   | SA l => PList (map pv_of_sto l)
   | SS fs => PDict (map (fun kx => (fst kx, pv_of_sto (snd kx))) fs)
+  | SVec l => PList (map (fun x => match x with RInt z => PInt z | RFloat f => PFloat f end) l)
+  | SMat m => PList (map (fun row => PList (map (fun x => match x with RInt z => PInt z | RFloat f => PFloat f end) row)) m)
   end.
 
 Definition spec_call (fuel : nat) (M : module) (g : RefSem.frame) (c : call) : obs * RefSem.frame :=
-  let g1 := fold_left (fun g kv => match frame_set g (fst kv) (sto_of_pv (snd kv)) with Some g' => g' | None => g ++ [(fst kv, sto_of_pv (snd kv))] end) (c_set c) g in
+  let gty x := match find (fun p => String.eqb (snd p) x) (m_globals M) with Some p => fst p | None => TVoid end in
+  let g1 := fold_left (fun g kv => let v := host_coerce (gty (fst kv)) (sto_of_pv (snd kv)) in
+                                   match frame_set g (fst kv) v with Some g' => g' | None => g ++ [(fst kv, v)] end) (c_set c) g in
   match ref_invoke M fuel (c_fn c) (map (fun kv => (fst kv, sto_of_pv (snd kv))) (c_args c)) g1 with
   | ROk (v, g2) =>
       (ORet (pv_of_sto v) (map (fun x => (x, match find (fun p => String.eqb (fst p) x) g2 with Some p => pv_of_sto (snd p) | None => PNone end)) (c_read c)), g2)
